@@ -4,7 +4,7 @@ from .scn import Scenario, h
 SECTIONS = [b"A", b"[A]", b"B", b"", None, b"[B]", b"[]", b"[A", b"C]", b"AB", b"[AB]", b"a"]
 KEYS = [b"x", b"y", b"z", b"w", b"", None, b"xy", b"X", b"x ", b"y\t", b" x"]   # the last three: blanks around a key handed to a setter or getter are part of the key
 TEXTS = [b"1", b"v", b"", b"Yes Please", b"TRUE", b"no", b"0x10", b"-5", b"4294967296", b" padded ", b"a\nb", b'"q"',
-         b"_none_", b"p-", b"010", b"12abc", None]
+         b"_none_", b"p-", b"010", b"12abc", None, b'  "hello world"', b'\t"q r" tail']
 INTS = ["0", "1", "-1", "2147483647", "-2147483648", "42"]
 UINTS = ["0", "1", "4294967295", "42"]
 I64 = ["0", "-9223372036854775808", "9223372036854775807", "-7"]
@@ -18,6 +18,7 @@ PARSED_FILES = [
     b"",
     b"[A]\nx=1\n[B]\ny=2\n",                 # no group-less key: the section list does not start with the group-less one
     b"# only a comment\n[S1]\nk=v\n[A]\n",     # ... and a section without keys at the end
+    b"x=1\ny=2\nx=3\n[A]\nx=4\nz=5\nx=6\n[B]\nw=7\nw=8\n",    # keys defined more than once in their section (the first definition is the visible one)
 ]
 
 
@@ -63,6 +64,9 @@ def set_op(s, rng, slot, conventional=False):
     t = rng.randrange(6)
     if t == 0:
         s.add("SET", slot, "str", h(g), h(k), h(rng.choice(TEXTS)))
+        if rng.random() < 0.3 and not conventional:
+            # what was just stored, seen through the extended getter (value lines, comments, line number) and released again
+            s.add("EXT", slot, h(g), h(k))
     elif t == 1:
         s.add("SET", slot, "int", h(g), h(k), rng.choice(INTS))
     elif t == 2:
